@@ -129,6 +129,33 @@ var pureItems = []pureItem{
 		seq:        map[string][]abstr{"c.ReadInt32()": {{"r0", "int32"}, {"r1", "int32"}, {"r2", "int32"}, {"r3", "int32"}}},
 		extra:      []pvar{{"r0", "int32"}, {"r1", "int32"}, {"r2", "int32"}, {"r3", "int32"}},
 		dropParams: []string{"c"}},
+	// the update rule (generator.go): every input of skipFile is a parameter
+	{name: "modTimeEqual", file: "internal/receiver/generator.go", fn: "modTimeEqual",
+		dropParams: []string{"a", "b"}, extra: []pvar{{"a", "int64"}, {"b", "int64"}},
+		abstract: map[string]abstr{"a.Truncate(time.Second)": {"(Go.truncSec a)", "int64"}, "b.Truncate(time.Second)": {"(Go.truncSec b)", "int64"},
+			"a.Equal(b)": {"(a == b)", "bool"}}},
+	{name: "skipFile", file: "internal/receiver/generator.go", fn: "skipFile",
+		dropParams: []string{"rt", "f", "st"},
+		extra: []pvar{{"dsize", "int64"}, {"fsize", "int64"}, {"alwaysChecksum", "bool"}, {"ignoreTimes", "bool"}, {"sumEqual", "bool"},
+			{"dsum", "[]byte"}, {"dmtime", "int64"}, {"fmtime", "int64"}},
+		abstract: map[string]abstr{"st.Size()": {"dsize", "int64"}, "f.Length": {"fsize", "int64"}, "rt.Opts.AlwaysChecksum": {"alwaysChecksum", "bool"},
+			"rt.Opts.IgnoreTimes": {"ignoreTimes", "bool"}, "bytes.Equal(f.Checksum[:], checksum[:])": {"sumEqual", "bool"},
+			"modTimeEqual(st.ModTime(), f.ModTime)": {"(Gen.Pure.modTimeEqual dmtime fmtime)", "bool"}},
+		seq: map[string][]abstr{"rsyncchecksum.RootChecksum(rt.DestRoot, f.Name)": {{"dsum", "[]byte"}}}},
+	// --delete is skipped when the sender reported I/O errors (receiver/do.go)
+	{name: "deleteGuard", file: "internal/receiver/do.go", fn: "deleteFiles",
+		from: "if rt.IOErrors > 0", to: "if rt.IOErrors > 0",
+		params:   []pvar{{"ioErrors", "int32"}, {"skip", "bool"}},
+		abstract: map[string]abstr{"rt.IOErrors": {"ioErrors", "int32"}},
+		replace:  map[string]repl{"return nil": {"let skip := true;", []string{"skip"}}},
+		results:  []string{"skip"}},
+	// what matched() hashes and where the next unmatched run starts (match.go)
+	{name: "matchedSpan", file: "internal/sender/match.go", fn: "matched",
+		from: "n := offset - st.lastMatch", to: "~st.lastMatch = offset + head.Sums[i].Len",
+		params:   []pvar{{"offset", "int64"}, {"i", "int32"}, {"lastMatch", "int64"}, {"sumLen", "int64"}},
+		abstract: map[string]abstr{"st.lastMatch": {"lastMatch", "int64"}, "head.Sums[i].Len": {"sumLen", "int64"}},
+		drop:     []string{"if err := st.sendToken(", "for j := int64(0); j < n; j += chunkSize"},
+		results:  []string{"n", "lastMatch"}},
 	// wire: multiplex frame header, and its decoding
 	{name: "muxHeader", file: "internal/rsyncwire/wire.go", fn: "WriteMsg",
 		from: "header := uint32(mplexBase+tag)<<24 | uint32(len(p))", to: "header := uint32(mplexBase+tag)<<24 | uint32(len(p))",
@@ -1426,11 +1453,19 @@ func needsMonad(n ast.Node, p *ptr) bool {
 	return m
 }
 
+// a pattern starting with "~" matches anywhere in the statement's text, otherwise at its start
+func stmtMatches(text, pat string) bool {
+	if strings.HasPrefix(pat, "~") {
+		return strings.Contains(text, pat[1:])
+	}
+	return strings.HasPrefix(text, pat)
+}
+
 func findRange(list []ast.Stmt, from, to string, src func(ast.Node) string) []ast.Stmt {
 	for i, s := range list {
-		if strings.HasPrefix(src(s), from) {
+		if stmtMatches(src(s), from) {
 			for j := i; j < len(list); j++ {
-				if strings.HasPrefix(src(list[j]), to) {
+				if stmtMatches(src(list[j]), to) {
 					return list[i : j+1]
 				}
 			}
@@ -1546,6 +1581,34 @@ func genPure(r *repo) string {
 		b.WriteString(def)
 		names = append(names, it.name)
 	}
+	// the construction of the tag table in SendFiles (sender.go), statement by statement (not translated:
+	// it sorts a slice of structs through a closure and fills a map; pinned as text, see C16)
+	var setup []string
+	if fd := r.funcDecl("internal/sender/sender.go", "SendFiles"); fd != nil {
+		ast.Inspect(fd, func(x ast.Node) bool {
+			bl, ok := x.(*ast.BlockStmt)
+			if !ok {
+				return true
+			}
+			for i, st := range bl.List {
+				if strings.HasPrefix(r.src(st), "targets := make(") {
+					for _, t := range bl.List[i:] {
+						txt := oneLine(r.src(t))
+						if strings.HasPrefix(txt, "st.lastMatch = 0") {
+							break
+						}
+						setup = append(setup, txt)
+					}
+					return false
+				}
+			}
+			return true
+		})
+	}
+	if len(setup) == 0 {
+		r.fail("Pure: tag table construction not found in SendFiles")
+	}
+	fmt.Fprintf(&b, "/-- sender.go SendFiles: how `targets` and `tagTable` are built -/\ndef tagTableSetup : List String := [%s]\n\n", quoteJoin(setup))
 	fmt.Fprintf(&b, "/-- the definitions that were regenerated in this run -/\ndef translated : List String := [%s]\n\nend Gen.Pure\n", quoteJoin(names))
 	return b.String()
 }
@@ -1592,7 +1655,15 @@ func translateItem(r *repo, it *pureItem, structs map[string][]pvar, funcs map[s
 	} else {
 		if fd.Recv != nil {
 			f := fd.Recv.List[0]
-			params = append(params, pvar{f.Names[0].Name, p.goType(f.Type)})
+			skip := false
+			for _, d := range it.dropParams {
+				if len(f.Names) == 1 && d == f.Names[0].Name {
+					skip = true
+				}
+			}
+			if !skip {
+				params = append(params, pvar{f.Names[0].Name, p.goType(f.Type)})
+			}
 		}
 		for _, f := range fd.Type.Params.List {
 			for _, n := range f.Names {
